@@ -60,8 +60,28 @@ class C08(CheckBase):
         return 600 if tier == 'quick' else 5400
 
     def gen_input(self, rng, dialect_for_gen):
-        kind = rng.weighted([(8, 'mutated'), (3, 'random'), (1, 'empty'), (1, 'missing'), (2, 'valid'), (4, 'aimed')])
+        kind = rng.weighted([(8, 'mutated'), (3, 'random'), (1, 'empty'), (1, 'missing'), (2, 'valid'), (4, 'aimed'), (1, 'deep')])
         ent = {'kind': kind}
+        if kind == 'deep':
+            # a well-framed program whose loop nesting runs far past anything a listing option expects: hundreds of
+            # unclosed FOR/REPEAT (indent grows without bound) or of unmatched NEXT/UNTIL (indent goes negative)
+            levels = rng.choice([100, 127, 128, 129, 200, 255, 256, 257, 300, 1000, 5000])
+            tok = rng.choice([b'\xe3', b'\xf5', b'\xe3', b'\xed', b'\xfd'])
+            per = rng.choice([1, 5, 50, 250])
+            lines = []
+            no = 10
+            left = levels
+            while left > 0 and len(lines) < 600:
+                k = min(per, left)
+                lines.append([no, (tok + (b' ' if rng.chance(0.3) else b'')) * k if per < 100 else tok * k])
+                left -= k
+                no += 10
+            if rng.chance(0.5):
+                lines.append([no, b'\xf1"X"'])
+            ent['kind'] = 'valid'
+            ent['dialect'] = dialect_for_gen
+            ent['lines'] = [[n, p[:251]] for n, p in lines]
+            return ent
         if kind == 'aimed':
             # one framing- or token-level corruption aimed the way C09 aims them (operand cut off by end of line,
             # bad length byte, unassigned extension code, ...): each is a distinct error path with its own diagnostic
